@@ -35,8 +35,8 @@ MANIFEST = dict(
          'running interpreter; extraction (ExtrOcamlBasic only) + ocaml/c09_driver.ml; the hand model Gen/Strop.v of '
          'TokenEncoder.strop/_encode/_strop_by_*/_do_for_type_and_all is validated by correspondence, not verified against Python. '
          '"Valid identifier" is the ASCII notion (non-ASCII Python identifiers are encoded, by design); identifier types are '
-         'lower-cased with the ASCII rule in the model (only ASCII types are exercised). Configuration overrides are exercised '
-         'against the property oracle only (thorough tier), the model is extracted for the shipped configuration.',
+         'lower-cased with the ASCII rule in the model (only ASCII types are exercised). The methods called by the translated '
+         'strop pipeline are shape-pinned (normalised AST), not translated.',
     design='§5 C09')
 
 LANGS = ['c', 'cpp', 'py']
@@ -240,18 +240,13 @@ def shrink(case, failing) -> list:
     return [ln, ty, s]
 
 
-OVERRIDES = [
-    {'stropping_prefix': '_pre_', 'stropping_suffix': '_post_'},
-    {'encoding_prefix': '_u'},
-    {'reserved_identifiers': ['foo', 'a', '_a', 'zX0031']},
-    {'reserved_identifiers': ['foo', 'if', 'zX0031', 'a_']},
-    {'whitespace_encoding_char': 'W'},
-]
+from tools.translators import gen as _gen  # noqa: F401  (must be imported first: it discovers gen_c09)
+from tools.translators.gen_c09 import OVERRIDE_CONFIGS as OVERRIDES  # the same list T1 turns into Gen_Strop.cfgs_ov
 
 
 def main(chk: core.Check, replay: typing.Optional[str] = None) -> int:
     # 1. proof obligations against the regenerated configuration
-    res = core.coq_check('C09', ['uni', 'strop'])
+    res = core.coq_check('C09', ['uni', 'strop', 'pin_strop_methods'])
     chk.proof_coverage(res, [
         'T1 translator tools/translators/gen_c09.py (+ regex_tr.py): TokenEncoder attributes of the working tree -> Gen_Strop.v; '
         'handler recognition by ast; fails closed outside the regex subset / on an unknown handler',
@@ -348,43 +343,63 @@ def main(chk: core.Check, replay: typing.Optional[str] = None) -> int:
     def handler_shaped(ln: str, t: str) -> bool:
         return ln in ('c', 'cpp') and t.startswith('_') and (len(t) == 1 or not (t[1] == '_' or 'A' <= t[1] <= 'Z'))
 
-    # configuration overrides: property oracle only (the extracted model is for the shipped configuration)
+    # configuration overrides, both tiers: implementation vs. the extracted model run with the override configuration as data
+    # (Gen_Strop.cfgs_ov, driver `lang@k`) and vs. the property oracle built from the override dump
     ov_stats = {}
-    if chk.tier == 'thorough' and not replay:
-        words = ['foo', 'a', '_a', 'if', '1', 'a b', '_A', '__x', 'zX0031', 'int8_t', 'é', ' ', 'True', 'None', 'x' * 9]
-        for ov in OVERRIDES:
-            ocases = [[ln, ty, w] for ln in LANGS for ty in ['any', 'macro'] for w in words]
-            oi, _ = run_impl(ocases, overrides=ov)
+    n_ov = 0
+    if not replay:
+        maxlen = 2 if chk.tier == 'quick' else 3
+        for k, ov in enumerate(OVERRIDES):
             od = dump_config_overrides(ov)
             if od is None:
+                broken.append('override %d: configuration dump failed' % k)
                 continue
             oo = Oracle(od)
-            nbad = 0
-            for c, g in zip(ocases, oi):
-                t = g[3:] if g.startswith('ok:') else None
-                if t is not None and c[2] and (t in oo.cfg[c[0]]['reserved'] or oo.pattern_hit(c[0], c[1], t)):
-                    if kf_live and handler_shaped(c[0], t):
-                        # instance of the known finding: its trigger holds and the quirk-faithful model (Coq:
-                        # strop_sound_override_refuted, handler result returned unverified) predicts exactly this
-                        stats['known_finding_instances'] += 1
-                        continue
+            strs = [''.join(t) for n in range(1, maxlen + 1) for t in itertools.product(ALPHABET + ['x', 'q', '9'], repeat=n)]
+            strs += ['foo', '_a', 'if', 'a b', '_A', '__x', 'zX0031', 'int8_t', 'True', 'None', 'x' * 9, 'x1', 'qqA', 'QQ', 'a_', 'if_',
+                     '_pre_if_post_', '_u0031', 'aWb']
+            ocases = []
+            for ln in LANGS:
+                words = sorted(set(w for w in od['langs'][ln]['reserved'] if isinstance(w, str)))
+                for ty in ['any', 'macro']:
+                    ocases += [[ln, ty, w] for w in strs]
+                ocases += [[ln, 'any', w] for w in words] + [[ln, 'function', '_' + w] for w in words[:60]]
+            oi, _ = run_impl(ocases, overrides=ov)
+            om = run_model(exe, [['%s@%d' % (c[0], k + 1), c[1], c[2]] for c in ocases]) if model is not None else None
+            nbad = nmis = 0
+            for j, (c, g) in enumerate(zip(ocases, oi)):
+                n_ov += 1
+                why = oo.judge(c[0], c[1], c[2], g)
+                if why and kf_live and g.startswith('ok:') and handler_shaped(c[0], g[3:]) and (om is None or om[j][0] == g):
+                    stats['known_finding_instances'] += 1     # trigger holds and the quirk-faithful model reproduces it
+                    why = None
+                if why:
                     nbad += 1
-                    bad_oracle.append((-1, 'override %r: %r -> %r is reserved' % (ov, c, g)))
-            ov_stats[json.dumps(ov, sort_keys=True)] = {'cases': len(ocases), 'reserved_results': nbad}
-        stats['override_runs'] = ov_stats
+                    bad_oracle.append((-1, 'override %d %r: %r -> %r: %s' % (k, ov, c, g, why)))
+                if om is not None:
+                    if om[j][1] != '-':
+                        distinct.add((c[0] + '@%d' % (k + 1), c[1], c[2]))
+                    if om[j][0] != g:
+                        nmis += 1
+                        bad_model.append((-1, 'override %d %r: %r model %r' % (k, ov, c, om[j][0]), g))
+            ov_stats[json.dumps(ov, sort_keys=True)] = {'cases': len(ocases), 'oracle_failures': nbad, 'model_disagreements': nmis}
+    stats['override_runs'] = ov_stats
+    stats['override_cases_model_vs_impl'] = n_ov if model is not None else 0
 
     chk.coverage.update({
-        'evaluations': len(cases), 'distinct_nontrivial': len(distinct),
+        'evaluations': len(cases) + n_ov, 'distinct_nontrivial': len(distinct),
         'rule': 'all strings up to length %d over the 12-symbol alphabet %r x 6 id types x {c,cpp,py} (one more length for type any), '
                 'every reserved word of each language (for py also keyword.kwlist+dir(builtins) of the interpreter) verbatim x all '
                 'types and with 19 prefixed/suffixed/cased variants, strings provoking each reserved '
-                'pattern, odd id types (ALL, Macro, unknown), seeded random longer strings; non-trivial = distinct (language, '
+                'pattern, odd id types (ALL, Macro, unknown), seeded random longer strings; plus, for each of the %d configuration '
+                'overrides (same list T1 emits as data), all strings up to length %d over a 15-symbol alphabet x {any,macro} and every '
+                'reserved word of the overridden configuration, model run with that configuration; non-trivial = distinct (language, '
                 'lower-cased type, string) on which the model took a non-default branch (encoding changed the token, keyword or '
                 'pattern stropping fired, a failure handler produced the result, or an error was raised), measured by the '
-                'driver\'s branch flags' % (3 if chk.tier == 'quick' else 4, ALPHABET),
+                'driver\'s branch flags' % (3 if chk.tier == 'quick' else 4, ALPHABET, len(OVERRIDES), 2 if chk.tier == 'quick' else 3),
         'exhaustive': False,
         'samples': [cases[i] for i in range(0, len(cases), max(1, len(cases) // 40))][:40],
-        'traces_validated_against_impl': stats['model_vs_impl_compared'],
+        'traces_validated_against_impl': stats['model_vs_impl_compared'] + stats['override_cases_model_vs_impl'],
         'distribution': stats,
     })
 
@@ -407,7 +422,7 @@ def main(chk: core.Check, replay: typing.Optional[str] = None) -> int:
         chk.violation({'case': cases[i], 'what': 'non-deterministic result: ' + why, 'implementation': impl[i]}, found_input=True)
     elif bad_model:
         i, m, got = bad_model[0]
-        chk.violation({'case': cases[i], 'model': m, 'implementation': got,
+        chk.violation({'case': cases[i] if i >= 0 else m, 'model': m, 'implementation': got,
                        'correspondence': 'Gen/Strop.v strop (StropInst.strop_lang) vs Language.filter_id',
                        'what': 'model and implementation disagree but no input violating the property was found',
                        'n_disagreements': len(bad_model), 'broken': broken}, found_input=False)
@@ -425,33 +440,41 @@ ISO_CASES = [['any', 'if'], ['any', 'foo'], ['any', 'qz_7'], ['any', 'a b'], ['a
 
 
 def isolation_runs(stats: dict) -> typing.List[dict]:
+    from concurrent.futures import ThreadPoolExecutor
     bad = []
+    pairs = [(0, 1), (1, 0), (2, 3), (3, 2), (0, 2), (2, 0), (1, 1)]
+
+    def ref_job(ln, ci):
+        return (ln, ci), run_impl([[ln, ty, s] for ty, s in ISO_CASES], overrides=ISO_CONFIGS[ci])[0]
+
+    def multi_job(ln, mode, a, b):
+        doc = {'objects': [{'lang': ln, 'overrides': ISO_CONFIGS[a]}, {'lang': ln, 'overrides': ISO_CONFIGS[b]}],
+               'cases': ISO_CASES, 'mode': mode}
+        p = core.run([core.PY, HARNESS, 'multi'], input=json.dumps(doc), env=core.repo_env(), timeout=600)
+        try:
+            return ln, mode, a, b, doc, json.loads(p.stdout[p.stdout.index('{"multi"'):])
+        except Exception:
+            return ln, mode, a, b, doc, 'multi-object harness failed: ' + p.stdout[-300:]
+
+    with ThreadPoolExecutor(max_workers=6) as ex:
+        ref = dict(ex.map(lambda t: ref_job(*t), [(ln, ci) for ln in LANGS for ci in range(len(ISO_CONFIGS))]))
+        jobs = list(ex.map(lambda t: multi_job(*t), [(ln, mode, a, b) for ln in LANGS for mode in ('create_all_first', 'interleaved')
+                                                     for a, b in pairs]))
     n = 0
-    for ln in LANGS:
-        ref = {}
-        for ci, ov in enumerate(ISO_CONFIGS):
-            ref[ci], _ = run_impl([[ln, ty, s] for ty, s in ISO_CASES], overrides=ov)
-        pairs = [(0, 1), (1, 0), (2, 3), (3, 2), (0, 2), (2, 0), (1, 1)]
-        for mode in ('create_all_first', 'interleaved'):
-            for a, b in pairs:
-                doc = {'objects': [{'lang': ln, 'overrides': ISO_CONFIGS[a]}, {'lang': ln, 'overrides': ISO_CONFIGS[b]}],
-                       'cases': ISO_CASES, 'mode': mode}
-                p = core.run([core.PY, HARNESS, 'multi'], input=json.dumps(doc), env=core.repo_env(), timeout=600)
-                try:
-                    d = json.loads(p.stdout[p.stdout.index('{"multi"'):])
-                except Exception:
-                    bad.append({'what': 'multi-object harness failed: ' + p.stdout[-300:], 'objects': doc['objects']})
-                    continue
-                for which, res in (('first use', d['multi']), ('used again', d['again'])):
-                    for oi, ci in enumerate((a, b)):
-                        for k, (ty, s) in enumerate(ISO_CASES):
-                            n += 1
-                            if res[oi][k] != ref[ci][k]:
-                                bad.append({'what': 'the result of filter_id depends on another Language object created in the same '
-                                                    'process: object #%d (%s) of %r answered %r, a process with only that '
-                                                    'configuration answers %r' % (oi, which, mode, res[oi][k], ref[ci][k]),
-                                            'case': [ln, ty, s], 'objects': doc['objects'], 'mode': mode, 'object_index': oi,
-                                            'implementation': res[oi][k], 'expected': ref[ci][k]})
+    for ln, mode, a, b, doc, d in jobs:
+        if isinstance(d, str):
+            bad.append({'what': d, 'objects': doc['objects']})
+            continue
+        for which, res in (('first use', d['multi']), ('used again', d['again'])):
+            for oi, ci in enumerate((a, b)):
+                for k, (ty, s) in enumerate(ISO_CASES):
+                    n += 1
+                    if res[oi][k] != ref[(ln, ci)][k]:
+                        bad.append({'what': 'the result of filter_id depends on another Language object created in the same '
+                                            'process: object #%d (%s) of %r answered %r, a process with only that '
+                                            'configuration answers %r' % (oi, which, mode, res[oi][k], ref[(ln, ci)][k]),
+                                    'case': [ln, ty, s], 'objects': doc['objects'], 'mode': mode, 'object_index': oi,
+                                    'implementation': res[oi][k], 'expected': ref[(ln, ci)][k]})
     stats['multi_object_comparisons'] = n
     stats['multi_object_disagreements'] = len(bad)
     return bad
